@@ -105,6 +105,14 @@ def admits(t_out, t_in):
             if tgt is None or not admits(tgt, ft):
                 return False
         return True
+    if _kind(t_in) == "Generator" and _kind(t_out) in ("Iterator", "Generator"):
+        # Generator[Y, S, R] -> Iterator[Y'] (RewriteGenerator, when S and R are None) or Generator[Y', S', R']: judged slot by
+        # slot with THIS relation (so that an empty container dropped inside the yield type is read the same way as elsewhere)
+        yi, si, ri = O.args_of(t_in)
+        ao = O.args_of(t_out)
+        if _kind(t_out) == "Iterator":
+            return si is type(None) and ri is type(None) and len(ao) == 1 and admits(ao[0], yi)
+        return len(ao) == 3 and admits(ao[0], yi) and admits(ao[1], si) and admits(ao[2], ri)
     if O.is_generic(t_in) and O.is_generic(t_out) and _kind(t_in) == _kind(t_out) and _kind(t_in) not in (None, "Type", "Callable"):
         ai, ao = O.args_of(t_in), O.args_of(t_out)
         if ai is not None and ao is not None and len(ai) == len(ao) and not any(x is Ellipsis for x in tuple(ai) + tuple(ao)):
